@@ -103,10 +103,16 @@ def toPiece (enc : List Char → Nat) (g : List Char × Option (List Char) × Op
 
 /-- the whole of `read_sig` from the text (`none`: a part does not match `re_paramname`, which makes `read_sig` raise
     AttributeError, or a part is outside what the piece-level model covers) -/
-def readSigText (enc : List Char → Nat) (ua upo ukw : Bool) (text : List Char) : Option RS := do
+def piecesOfText (enc : List Char → Nat) (text : List Char) : Option (List Piece) := do
   let groups ← (splitParams text).mapM id
-  let pieces ← groups.mapM (toPiece enc)
-  pure (readSig ua upo ukw pieces)
+  groups.mapM (toPiece enc)
+
+def readSigText (enc : List Char → Nat) (ua upo ukw : Bool) (text : List Char) : Option RS :=
+  (piecesOfText enc text).map (readSig ua upo ukw)
+
+/-- the parameters of `s(text, …)`, from the text -/
+def sParamsText (enc : List Char → Nat) (ua upo ukw : Bool) (text : List Char) : Option (Except SErr (List Param)) :=
+  (piecesOfText enc text).map (sParams ua upo ukw)
 
 /-- positional notation over the code points: injective -/
 def encText (cs : List Char) : Nat := cs.foldl (fun a c => a * 1114112 + c.toNat + 1) 0
